@@ -111,14 +111,17 @@ inductive POut
 def alloc (s : PSt) (n : PNode) : PSt × Nat := ({ s with heap := s.heap ++ [n] }, s.heap.length)
 
 /-- `OpenStream(id, {PusherID: 0})` (with the D7 repair: a node that leaves the idle state leaves the idle list) -/
-def openStream (s : PSt) (id : Nat) : PSt × POut :=
+def openStream (s : PSt) (id : Nat) (pusher : Nat := 0) : PSt × POut :=
   match lookup s id with
   | some p =>
     if (node s p).state ≠ .idle then (s, .panic)
     else ({ modNode s p (fun x => { x with state := .open_ }) with idleNodes := s.idleNodes.filter (· ≠ p) }, .none_)
   | none =>
+    -- "Pushed streams initially depend on their associated stream" (OpenStreamOptions.PusherID); an unknown pusher and
+    -- PusherID 0 mean the root. Only a NEW node is placed: an idle node that is opened keeps its place in the tree.
+    let q := (lookup s pusher).getD 0
     let (s, p) := alloc s { id := id, state := .open_ }
-    let s := setParent s p (some 0)
+    let s := setParent s p (some q)
     ({ s with nodes := s.nodes ++ [(id, p)], maxID := max s.maxID id }, .none_)
 
 /-- `CloseStream(id)` -/
@@ -271,7 +274,7 @@ def pop (less : PNode → PNode → Bool) (s : PSt) : PSt × POut :=
   | (s, none) => (s, .none_)
 
 inductive POp
-  | open_ (id : Nat)
+  | open_ (id : Nat) (pusher : Nat := 0)
   | close (id : Nat)
   | adjust (id dep weight : Nat) (excl : Bool)
   | push (r : Req)
@@ -282,7 +285,7 @@ inductive POp
   deriving Repr, DecidableEq
 
 def step (less : PNode → PNode → Bool) (s : PSt) : POp → PSt × POut
-  | .open_ id => openStream s id
+  | .open_ id pusher => openStream s id pusher
   | .close id => closeStream s id
   | .adjust id dep w e => adjustStream s id dep w e
   | .push r => push s r
